@@ -533,6 +533,20 @@ impl Session {
                                     data.overflow = Some("display_user_friendly".into());
                                 }
                                 data.message = msg.s;
+                                // A provider's cancellation token may be raised after solve has
+                                // returned (deadline, Ctrl-C): rendering must still finish and say the same.
+                                {
+                                    let prev = s.provider().cancel.get();
+                                    s.provider().cancel.set(Cancel::Sticky(0));
+                                    let mut again = BoundedString { s: String::new(), limit: 4096 + quad * 64, overflow: false };
+                                    let g2 = conflict.graph(s);
+                                    let disp2 = conflict.display_user_friendly(s);
+                                    let _ = std::fmt::write(&mut again, format_args!("{disp2}"));
+                                    s.provider().cancel.set(prev);
+                                    if again.s != data.message || g2.graph.node_count() != n {
+                                        data.overflow = Some("render-differs-with-raised-cancellation".into());
+                                    }
+                                }
                                 for (simplify, slot) in [(false, 0), (true, 1)] {
                                     let mut out = BoundedBytes { b: vec![], limit: 64 + 256 * (m + 1), overflow: false };
                                     let _ = graph.graphviz(&mut out, s.provider(), simplify);
